@@ -1497,6 +1497,18 @@ void SPxMainSM<R>::AggregationPS::execute(VectorBase<R>& x, VectorBase<R>& y, Ve
    r[m_j] = 0.0;
 
    // basis:
+   // x_k is fixed in the reduced problem: if only one of its two bounds was tightened by the aggregation, x_k may stay
+   // nonbasic at the other (original) bound provided that its reduced cost has the right sign
+   if(cStatus[active_idx] == SPxSolverBase<R>::FIXED)
+   {
+      if(NE(x[active_idx], m_oldupper, this->feastol()) && EQ(x[active_idx], m_oldlower, this->feastol())
+            && r[active_idx] >= 0.0)
+         cStatus[active_idx] = SPxSolverBase<R>::ON_LOWER;
+      else if(NE(x[active_idx], m_oldlower, this->feastol())
+              && EQ(x[active_idx], m_oldupper, this->feastol()) && r[active_idx] <= 0.0)
+         cStatus[active_idx] = SPxSolverBase<R>::ON_UPPER;
+   }
+
    if(((cStatus[active_idx] == SPxSolverBase<R>::ON_UPPER
          || cStatus[active_idx] == SPxSolverBase<R>::FIXED)
          && NE(x[active_idx], m_oldupper, this->feastol())) ||
@@ -1504,7 +1516,12 @@ void SPxMainSM<R>::AggregationPS::execute(VectorBase<R>& x, VectorBase<R>& y, Ve
            || cStatus[active_idx] == SPxSolverBase<R>::FIXED)
           && NE(x[active_idx], m_oldlower, this->feastol())))
    {
+      // x_k enters the basis and x_j becomes nonbasic: the reduced cost of x_k is moved to x_j via the dual of row i
+      R aik = m_row[active_idx];
+
       cStatus[active_idx] = SPxSolverBase<R>::BASIC;
+      y[m_i] += r[active_idx] / aik;
+      r[m_j] = -(r[active_idx] * aij) / aik;
       r[active_idx] = 0.0;
       assert(NE(m_upper, m_lower, this->epsilon()));
 
